@@ -143,6 +143,12 @@ def run(ctx):
         elif pp.returncode != 0:
             raise vf.Machinery("%s driver failed rc=%d:\n%s" % (nm, pp.returncode, pp.stdout[-3000:]))
     recs = vf.read_ndjson(trp) + vf.read_ndjson(trh)
+    for r in recs:
+        ch = r.pop("changed_after_completion", None)
+        if ch:
+            ctx.candidate(dict(kind="changed-after-completion", side=r.get("side")),
+                          "the trace of %s (%s side) changed after it had been handed to the collector: at completion %s, afterwards %s"
+                          % (r["name"], r.get("side"), json.dumps(ch["at_completion"])[-400:], json.dumps(ch["afterwards"])[-400:]), dict(r, changed=ch))
     allp = os.path.join(ctx.build, "conc.ndjson")
     vf.write_ndjson(allp, recs)
     tr = ctx.tlc("Trace_Builder", "Trace_Builder.cfg", workers=1, env=dict(VERIF_TRACE=allp), timeout=1800)
